@@ -36,19 +36,19 @@ fn val_b(version: u64, k: u64) -> Vec<u8> {
 // ---------------------------------------------------------------------------------- controller
 
 #[derive(Default)]
-struct CtlState {
+pub(crate) struct CtlState {
     /// (thread name, pause point, occurrence) to park at
-    plan: Option<(String, String, usize)>,
+    pub(crate) plan: Option<(String, String, usize)>,
     seen: usize,
     parked: bool,
     released: bool,
     /// every pause point passed: (thread, point)
     log: Vec<(String, String)>,
-    points_of_first: Vec<String>,
+    pub(crate) points_of_first: Vec<String>,
 }
 
-struct Ctl {
-    st: Mutex<CtlState>,
+pub(crate) struct Ctl {
+    pub(crate) st: Mutex<CtlState>,
     cv: Condvar,
     /// the merged, ordered event list (semantic events and pause points passed)
     events: Arc<Mutex<Vec<String>>>,
@@ -59,10 +59,10 @@ fn thread_name() -> String {
 }
 
 impl Ctl {
-    fn new() -> Arc<Self> {
+    pub(crate) fn new() -> Arc<Self> {
         Arc::new(Ctl { st: Mutex::new(CtlState::default()), cv: Condvar::new(), events: Arc::new(Mutex::new(vec![])) })
     }
-    fn hook(self: &Arc<Self>, point: &'static str) {
+    pub(crate) fn hook(self: &Arc<Self>, point: &'static str) {
         let me = thread_name();
         let mut st = self.st.lock().unwrap();
         if me == "T1" || me == "T2" {
@@ -95,7 +95,7 @@ impl Ctl {
             }
         }
     }
-    fn wait_parked_or(&self, done: &dyn Fn() -> bool, timeout: Duration) -> bool {
+    pub(crate) fn wait_parked_or(&self, done: &dyn Fn() -> bool, timeout: Duration) -> bool {
         let deadline = std::time::Instant::now() + timeout;
         let mut st = self.st.lock().unwrap();
         loop {
@@ -112,7 +112,7 @@ impl Ctl {
             st = self.cv.wait_timeout(st, Duration::from_millis(5).min(left)).unwrap().0;
         }
     }
-    fn release(&self) {
+    pub(crate) fn release(&self) {
         let mut st = self.st.lock().unwrap();
         st.released = true;
         self.cv.notify_all();
@@ -410,6 +410,7 @@ pub fn run(args: &Args) {
     let mut rng = Rng::new(args.seed ^ 0xC03);
     out.comment(&format!("C03 sched seed={} thorough={}", args.seed, args.thorough));
     let cfg = Cfg { page: 512, region: 65536, cache: if args.seed % 2 == 0 { 0 } else { 1 << 20 } };
+    let focus = args.extra.iter().position(|a| a == "--focus").and_then(|i| args.extra.get(i + 1)).cloned();
     for first in CALLS {
         // discover the pause points the first call passes (no preemption)
         out.begin_case(&format!("first={first:?}"));
@@ -426,6 +427,11 @@ pub fn run(args: &Args) {
             placements.push((p.clone(), *n));
         }
         for second in CALLS {
+            // `--focus c02`: only the schedules in which a reader races with another call
+            let reader = |c: &Call| matches!(c, Call::Read | Call::DropReader);
+            if focus.as_deref() == Some("c02") && !reader(first) && !reader(second) {
+                continue;
+            }
             for (p, n) in &placements {
                 run_schedule(&cfg, *first, *second, Some((p.as_str(), *n)), &mut out);
             }
